@@ -7,6 +7,7 @@ import (
 	"fmt"
 	"io"
 	"net/http"
+	"reflect"
 	"sort"
 	"strings"
 	"sync"
@@ -83,7 +84,7 @@ func (r *c04Reg) GetServiceInstance(serviceName, instanceID string) (*servicereg
 
 func c04RegInstance(x c04Inst, service string) *serviceregistry.ServiceInstanceSpec {
 	return &serviceregistry.ServiceInstanceSpec{RegistryName: c04RegName, ServiceName: service,
-		InstanceID: fmt.Sprintf("i%d", x.ID), Address: fmt.Sprintf("in%d.test", x.ID), Port: 8080,
+		InstanceID: fmt.Sprintf("i%d", x.ID), Address: c04InstAddr(x), Port: c04InstPort(x), Scheme: x.Scheme,
 		Tags: x.Tags, Weight: x.W}
 }
 
@@ -118,7 +119,14 @@ func (r *c04Reg) ListServiceInstances(serviceName string) (map[string]*servicere
 				result[k] = v.DeepCopy()
 				var id int
 				fmt.Sscanf(v.InstanceID, "i%d", &id)
-				rep = append(rep, c04Inst{ID: id, Tags: v.Tags, W: v.Weight})
+				x := c04Inst{ID: id, Tags: v.Tags, W: v.Weight, Scheme: v.Scheme}
+				if v.Port != 8080 {
+					x.Port = int(v.Port)
+				}
+				if v.Address != fmt.Sprintf("in%d.test", id) {
+					x.Addr = v.Address
+				}
+				rep = append(rep, x)
 			}
 		}
 		sort.Slice(rep, func(i, j int) bool { return rep[i].ID < rep[j].ID })
@@ -209,7 +217,7 @@ func c04Expected(in c04WatchIn, nrep int, last []c04Inst) []c04Srv {
 				}
 			}
 			if ok {
-				out = append(out, c04Srv{URL: fmt.Sprintf("http://in%d.test:8080", x.ID), W: x.W})
+				out = append(out, c04Srv{URL: c04InstURL(x), W: x.W})
 			}
 		}
 	}
@@ -289,6 +297,7 @@ func c04Handle(sp *ServerPool, hkey string, rq c04Req, seed int64) c04Out {
 	ctx.SetRequest(context.DefaultNamespace, req)
 	o := c04Out{}
 	o.Key, o.Draw = c04Oracle(sp.LoadBalancer(), hkey, req, seed)
+	curList := c04Servers(sp.LoadBalancer())
 	c04Sent.Store("")
 	func() {
 		defer func() {
@@ -302,7 +311,7 @@ func c04Handle(sp *ServerPool, hkey string, rq c04Req, seed int64) c04Out {
 			o.Status = resp.StatusCode()
 		}
 	}()
-	o.Target = c04Sent.Load().(string)
+	o.Target = c04Target(curList, c04Sent.Load().(string), "/p")
 	return o
 }
 
@@ -403,6 +412,17 @@ func c04RunWatch(t *testing.T, in c04WatchIn) (obs c04WatchObs) {
 			reg.report(st.Set)
 			reg.notify <- &serviceregistry.RegistryEvent{UseReplace: true, Replace: c04RegMap(st.Set, "svc")}
 			wantListed++
+		case "diff":
+			// the way the in-tree drivers report after their first Replace: the event is the
+			// difference between the previous and the current content
+			reg.report(st.Set)
+			ev := serviceregistry.NewRegistryEventFromDiff(c04RegName, c04RegMap(prev, "svc"), c04RegMap(st.Set, "svc"))
+			if !ev.Empty() {
+				reg.notify <- ev
+			}
+			if !reflect.DeepEqual(c04RegMap(prev, "svc"), c04RegMap(st.Set, "svc")) {
+				wantListed++ // the content changed: the controller has to list the service
+			}
 		case "siblings":
 			// n sibling watchers of the same service are created and stopped directly on the registry
 			// (other pools / pipelines being reloaded n times); each gets its own priming listing, the
@@ -700,6 +720,52 @@ func c04GenWatch(r *vfRand, adv bool) c04WatchIn {
 		}
 		gens = append(gens, c04WStep{Set: c04GenSet(r, &next, r.Chance(3, 4)), Kind: r.PickStr("apply", "replace")})
 		in.Steps = append(in.Steps[:at], append(gens, in.Steps[at:]...)...)
+	}
+	if r.Chance(1, 2) || adv { // real-driver style: first a full Replace, then diffs that change exactly ONE field of one instance
+		base := c04GenSet(r, &next, true)
+		for j := range base {
+			if base[j].W == 0 && r.Bool() {
+				base[j].W = 5
+			}
+		}
+		in.Steps = append(in.Steps, c04WStep{Set: base, Kind: "replace"})
+		curSet := base
+		for j := r.Range(1, 3); j > 0; j-- {
+			nxt := make([]c04Inst, len(curSet))
+			for q := range curSet {
+				nxt[q] = curSet[q]
+				nxt[q].Tags = append([]string{}, curSet[q].Tags...)
+			}
+			x := &nxt[0] // instance 0 carries all configured tags: the change is visible in the pool's list
+			switch r.Intn(6) {
+			case 0:
+				if x.W == 0 {
+					x.W = 5
+				} else {
+					x.W = 0
+				}
+			case 1:
+				x.W = x.W + 1
+			case 2:
+				x.Port = 8081 + r.Intn(3) + 10*j
+			case 3:
+				if x.Scheme == "https" {
+					x.Scheme = "http"
+				} else {
+					x.Scheme = "https"
+				}
+			case 4:
+				x.Addr = fmt.Sprintf("moved%d-%d.test", x.ID, j)
+			default: // tags: drop all but one qualifying tag / add one
+				if len(x.Tags) > 1 {
+					x.Tags = x.Tags[:len(x.Tags)-1]
+				} else {
+					x.Tags = append(x.Tags, "extra")
+				}
+			}
+			in.Steps = append(in.Steps, c04WStep{Set: nxt, Kind: "diff"})
+			curSet = nxt
+		}
 	}
 	if r.Chance(1, 3) || adv { // many sibling watchers come and go (8 bit wrap of any watcher numbering), then a report
 		c04AddSiblings(r, &in, &next, r.PickInt(255, 256, 257, 300, 300, 520))
